@@ -398,6 +398,30 @@ func (o *spkOracle) after(sys verifrt.System, hist []verifrt.Event, ev verifrt.E
 	for _, m := range s.mgr.misuse {
 		o.violate(hist, "C05 session misuse: "+strings.Fields(m)[0]+" "+strings.Fields(m)[1], m)
 	}
+	if o.prop == "C09" && isNew && !s.quiescent() && s.settledModuloRetries() {
+		// nothing is pending but retries of deliveries the handlers refused: a speaker started now on the same cluster
+		// state must be refusing the same thing - if it settles, the long-lived one is stuck on something only it remembers
+		// (refusing a configuration that orphans a service this speaker still announces is by design: the refusal is
+		// explained when the long-lived speaker announces a service the fresh one does not)
+		f, ok := s.freshSys()
+		explained := false
+		if ok {
+			fa := f.announcedNames()
+			for n := range s.announcedNames() {
+				explained = explained || !fa[n]
+			}
+		}
+		if ok && !explained {
+			var pend []string
+			for k := range s.errKeys {
+				pend = append(pend, k)
+			}
+			sort.Strings(pend)
+			o.violate(hist, "C09 the speaker keeps refusing what a freshly started speaker accepts pending="+strings.Join(pend, ",")+" after="+s.lastUser,
+				"the long-lived speaker retries "+strings.Join(pend, ",")+" forever; a fresh speaker on the same objects settles")
+		}
+		return
+	}
 	if !isNew || !s.quiescent() {
 		return
 	}
